@@ -318,6 +318,103 @@ func Run(c *common.Ctx) error {
 			return err
 		}
 	}
+	for i := 0; i < c.Pick(2, 6); i++ {
+		if err := importWaitingAtDemotion(c, c.Rng.Fork(), i); err != nil {
+			return err
+		}
+	}
+	return nil
+}
+
+// importWaitingAtDemotion: POST /import reaches the primary while an application connection holds a read lock, so
+// the import waits for the write lock; the node then loses the primary role. The waiting import has to give up: a
+// node without write authority publishes nothing - and the request still gets an answer.
+func importWaitingAtDemotion(c *common.Ctx, r *common.Rand, idx int) error {
+	dir, err := os.MkdirTemp(c.OutDir, "c07i-")
+	if err != nil {
+		return err
+	}
+	defer os.RemoveAll(dir)
+	clu := cluster.New(dir, 2*time.Second)
+	defer clu.Close()
+	clu.Opts = func(name string, s *litefs.Store) { s.DemoteDelay = 2500 * time.Millisecond }
+	p, err := clu.Start("p", true)
+	if err != nil {
+		return err
+	}
+	if clu.WaitPrimary(5*time.Second) == nil {
+		return fmt.Errorf("no primary")
+	}
+	h := hist.NewOn(c, r.Fork(), hist.Config{PageSize: 512}, p.Store, p.Exits, "db", nil, 0, false)
+	if err := commitN(h, 3, false); err != nil {
+		return err
+	}
+	db := p.Store.DB("db")
+	const owner = 9
+	if !db.TryRLocks(ctx, owner, []litefs.LockType{litefs.LockTypePending}) || !db.TryRLocks(ctx, owner, []litefs.LockType{litefs.LockTypeShared}) {
+		return fmt.Errorf("reader lock")
+	}
+	_ = db.Unlock(ctx, owner, []litefs.LockType{litefs.LockTypePending})
+	defer func() { _ = db.Unlock(ctx, owner, []litefs.LockType{litefs.LockTypeShared}) }()
+	before := snapshot(p, "db")
+	// a valid 4-page image
+	var img bytes.Buffer
+	for pg := uint32(1); pg <= 4; pg++ {
+		img.Write(lfs.MakePage(512, pg, 5150+uint64(pg)+uint64(idx)*10, 4, false))
+	}
+	type answer struct {
+		code int
+		err  error
+	}
+	done := make(chan answer, 1)
+	go func() {
+		req, _ := http.NewRequest("POST", p.Server.URL()+"/import?name=db", bytes.NewReader(img.Bytes()))
+		cl := &http.Client{Timeout: 8 * time.Second}
+		resp, err := cl.Do(req)
+		if err != nil {
+			done <- answer{0, err}
+			return
+		}
+		_, _ = io.Copy(io.Discard, resp.Body)
+		resp.Body.Close()
+		done <- answer{resp.StatusCode, nil}
+	}()
+	time.Sleep(80 * time.Millisecond) // the import is waiting for the write lock
+	if idx%2 == 0 {
+		p.Store.Demote()
+	} else {
+		clu.Svc.Revoke()
+	}
+	deadline := time.Now().Add(4 * time.Second)
+	for p.Store.IsPrimary() && time.Now().Before(deadline) {
+		time.Sleep(time.Millisecond)
+	}
+	var ans answer
+	select {
+	case ans = <-done:
+	case <-time.After(9 * time.Second):
+		ans = answer{0, fmt.Errorf("no answer within 9s")}
+	}
+	time.Sleep(30 * time.Millisecond)
+	after := snapshot(p, "db")
+	c.Evaluations++
+	c.Distinct(fmt.Sprintf("import-waiting-at-demotion:%d", idx%2))
+	rep := map[string]any{"kind": "readonly-import-demotion", "how": []string{"demote", "lease-lost"}[idx%2], "status": ans.code, "error": fmt.Sprint(ans.err)}
+	key := "C07:import-waiting-at-demotion"
+	if p.Store.IsPrimary() {
+		c.Count("demotion_not_effective", 1)
+		return nil
+	}
+	if after != before {
+		c.Violate(key+":published", fmt.Sprintf("an import that was still waiting for the write lock when the node lost the primary role went through afterwards (a reader still holds SHARED): %+v -> %+v; the request answered %d / %v", before, after, ans.code, ans.err), rep)
+	} else if ans.err != nil {
+		c.Violate(key+":no-answer", fmt.Sprintf("the import request got no response: %v", ans.err), rep)
+	} else if ans.code >= 200 && ans.code < 300 {
+		c.Violate(key+":accepted", fmt.Sprintf("the import request was answered %d on a node that is no longer primary", ans.code), rep)
+	}
+	if ex := p.Exits(); len(ex) > 0 {
+		c.Violate(key+":exit", fmt.Sprintf("the node called Exit(%v)", ex), rep)
+	}
 	return nil
 }
 
